@@ -661,7 +661,12 @@ fn gen_spec(g: &mut Gen, depth: usize, in_len: usize, o: &LoopOpts) -> LoopSpec 
                     _ => Repl::Unlimited,
                 };
                 // zip: loop stream on either side
-                if matches!(bop, BinOp::Zip) && g.t.draw(2) == 1 {
+                // zip and joins: the loop stream on either side (with the side input on the left
+                // the cached side ends first in every round after the first)
+                if matches!(bop, BinOp::Zip | BinOp::Join(..)) && g.t.draw(2) == 1 {
+                    if matches!(bop, BinOp::Join(..)) {
+                        b.repl = Repl::Unlimited;
+                    }
                     b.steps.push(Step::Bin(SIDE_BASE + sid, b.cur, bop));
                 } else {
                     b.steps.push(Step::Bin(b.cur, SIDE_BASE + sid, bop));
